@@ -101,7 +101,20 @@ static int count_lines (const char *s)
 }
 
 /* one case: parse + oracles.  expect_line > 0: an error with that line number is required */
-static void one_case (const char *text, const char *sig, int expect_line, int do_compile)
+static void one_case_exact (const char *text, const char *sig, int expect_line, int do_compile);
+
+/* the parser gets the text in a heap block of exactly strlen+1 bytes, so that a read past the terminating NUL is an
+ * AddressSanitizer report and not a silent read of whatever the harness buffer held */
+static void one_case (const char *text_in, const char *sig, int expect_line, int do_compile)
+{
+  size_t n = strlen (text_in);
+  char *text = malloc (n + 1);
+  memcpy (text, text_in, n + 1);
+  one_case_exact (text, sig, expect_line, do_compile);
+  free (text);
+}
+
+static void one_case_exact (const char *text, const char *sig, int expect_line, int do_compile)
 {
   OrcProgram **programs = NULL;
   OrcParseError **errors = NULL;
@@ -147,7 +160,8 @@ static Cfg cfg;
 static void line_space (long start, long *pidx)
 {
   /* sequences of 1..maxlen lines; each with/without a leading valid .function; 3 ending styles */
-  static const char *endings[] = { "\n", "\r\n", "\n" /* style 2: last line without newline */ };
+  /* style 2: last line without newline; style 3: CRLF file cut between the final CR and LF */
+  static const char *endings[] = { "\n", "\r\n", "\n", "\r\n" };
   int len, style, lead;
   for (len = 1; len <= cfg.maxlen; len++) {
     long total = 1, k;
@@ -157,7 +171,7 @@ static void line_space (long start, long *pidx)
       int li[4];
       long t = k;
       for (i = len - 1; i >= 0; i--) { li[i] = (int) (t % NA); t /= NA; }
-      for (lead = 0; lead < 2; lead++) for (style = 0; style < 3; style++) {
+      for (lead = 0; lead < 2; lead++) for (style = 0; style < 4; style++) {
         long idx = (*pidx)++;
         char text[1024], sig[200];
         size_t o = 0, so = 0;
@@ -168,7 +182,7 @@ static void line_space (long start, long *pidx)
         for (i = 0; i < len; i++) {
           const Line *L = &A[li[i]];
           int last = i == len - 1;
-          o += snprintf (text + o, sizeof (text) - o, "%s%s", L->text, (last && style == 2) ? "" : endings[style]);
+          o += snprintf (text + o, sizeof (text) - o, "%s%s", L->text, (last && style == 2) ? "" : (last && style == 3) ? "\r" : endings[style]);
           so += snprintf (sig + so, sizeof (sig) - so, "%s%s", i ? "+" : "", L->kind);
           if (L->mal && opens) { nmal++; malpos = i; }
           if (!strncmp (L->kind, "fn", 2)) opens = 1;
